@@ -4,7 +4,7 @@ import collections
 import json
 import time
 
-from harness import (Client, Service, MachineryError, STRATEGIES, adf_text, names, expected, val, check_graph)
+from harness import (Client, Service, MachineryError, STRATEGIES, adf_text, names, expected, val, check_graph, big_code)
 
 FIELDS = [f for _, f in STRATEGIES]
 
@@ -313,6 +313,11 @@ def worker(server_bin, spec):
                 j = li * 4 + ti
                 if j % of == shard:
                     ex.linear(5000 + j, tts, ("Naive", "Hybrid")[(li + ti) % 2], [(k + j) % 6 for k in range(6)], nm=nm)
+        # larger codes (12 statements: variable positions 10 and 11 exist), decided by their grounded interpretation
+        for j in range(4 if quick else 12):
+            if j % of == shard:
+                tts, nm = big_code(j + seed)
+                ex.linear(7000 + j, tts, ("Naive", "Hybrid")[j % 2], [(k + j) % 6 for k in range(6)], nm=nm)
         k = 0
         for what, code in BAD_CODES + ILL_FORMED:
             for parsing in ("Naive", "Hybrid"):
